@@ -44,7 +44,7 @@ def run(ctx):
         rep = {"replay_kind": "client_case", "case": common.enc(cases_a[i])}
         if not o_ok:
             sig = None
-            if c07.lifecycle_has_readd(cases_a[i], res_a[i][0]):
+            if c07.f5(cases_a[i], res_a[i][0]):
                 sig = "F5-readd-while-removal-queued"
             elif sub[i]["c07_fifo_case"] and sub[i]["c07_healed_case"] and c07.older_modified_retried_while_younger_queued(cases_a[i], res_a[i][0]):
                 sig = "F19-complete-cache-regresses-on-retry"
